@@ -69,6 +69,25 @@ pub fn alphabets(tier: Tier) -> Vec<(Alphabet, Limits, bool)> {
         Limits { max_depth: 64, max_states: 3_000_000, max_wall_s: if tier.thorough() { 900.0 } else { 120.0 }, threads: th },
         true,
     ));
+    // A4: IPv4 hosts served through the dual-stack IPv6 socket only (use_ipv4 = false, set_only_ipv6 = false): both maps are in use
+    v.push((
+        Alphabet {
+            name: "A4-v6-socket-serves-v4",
+            opts: WorldOpts { hashes: vec![0], families: vec![true, false], v6_socket_serves_v4: true, ..Default::default() },
+            keys: 2,
+            kinds: vec![Kind::Leech, Kind::Seed, Kind::Stop0],
+            pids: None,
+            ages: vec![1],
+            lags: vec![0],
+            numwants: vec![0],
+            scrapes: vec![vec![0]],
+            clock_max: 2,
+            reloads: vec![],
+            clean: true,
+        },
+        Limits { max_depth: 64, max_states: 3_000_000, max_wall_s: if tier.thorough() { 900.0 } else { 120.0 }, threads: th },
+        true,
+    ));
     if tier.thorough() {
         // A3: one torrent, 6 keys, depth-bounded
         v.push((
